@@ -542,6 +542,64 @@ def _t_method_spellings(srcs):
             R().visit(tree)
 
 
+def _t_statement_spellings(srcs):
+    """`i += 1` -> `i = i + 1` (name target, constant operand); `return <call or operation>` -> `_res = ...; return _res`; the first
+    nested call argument of a plain assignment pulled into a temporary when everything before it is a name or constant;
+    `a < b < c` -> `a < b and b < c` for a name/constant b"""
+    import ast
+
+    class R(ast.NodeTransformer):
+        def __init__(self):
+            self.k = 0
+            self.gen = False
+
+        def visit_FunctionDef(self, node):
+            old = self.gen
+            self.gen = any(isinstance(x, (ast.Yield, ast.YieldFrom)) for x in ast.walk(node))
+            self.generic_visit(node)
+            self.gen = old
+            return node
+
+        def visit_Lambda(self, node):
+            return node
+
+        def visit_AugAssign(self, node):
+            if isinstance(node.target, ast.Name) and isinstance(node.value, ast.Constant) and type(node.value.value) is int:
+                return ast.copy_location(ast.Assign(targets=[ast.Name(node.target.id, ast.Store())], value=ast.BinOp(left=ast.Name(node.target.id, ast.Load()), op=node.op, right=node.value)), node)
+            return node
+
+        def visit_Return(self, node):
+            if node.value is not None and isinstance(node.value, (ast.Call, ast.BinOp, ast.Subscript)) and not self.gen:
+                self.k += 1
+                nm = "_res%d" % self.k
+                return [ast.copy_location(ast.Assign(targets=[ast.Name(nm, ast.Store())], value=node.value), node), ast.copy_location(ast.Return(value=ast.Name(nm, ast.Load())), node)]
+            return node
+
+        def visit_Assign(self, node):
+            v = node.value
+            if isinstance(v, ast.Call) and not v.keywords and len(node.targets) == 1 and isinstance(node.targets[0], ast.Name) and isinstance(v.func, (ast.Name, ast.Attribute)) and \
+                    (isinstance(v.func, ast.Name) or isinstance(v.func.value, ast.Name)):
+                for i, a in enumerate(v.args):
+                    if isinstance(a, ast.Call) and not any(isinstance(x, (ast.Lambda, ast.GeneratorExp, ast.ListComp, ast.Starred)) for x in ast.walk(a)):
+                        self.k += 1
+                        nm = "_arg%d" % self.k
+                        v.args[i] = ast.Name(nm, ast.Load())
+                        return [ast.copy_location(ast.Assign(targets=[ast.Name(nm, ast.Store())], value=a), node), node]
+                    if not isinstance(a, (ast.Name, ast.Constant)):
+                        break
+            return node
+
+        def visit_Compare(self, node):
+            self.generic_visit(node)
+            if len(node.ops) == 2 and isinstance(node.comparators[0], (ast.Name, ast.Constant)):
+                b = node.comparators[0]
+                return ast.copy_location(ast.BoolOp(op=ast.And(), values=[ast.Compare(left=node.left, ops=[node.ops[0]], comparators=[b]),
+                                                                            ast.Compare(left=b, ops=[node.ops[1]], comparators=[node.comparators[1]])]), node)
+            return node
+    for pth, tree in srcs.items():
+        R().visit(tree)
+
+
 def _t_np_operators(srcs):
     """operators spelled as numpy functions where that is the same for every operand the code can see: a @ b -> np.matmul(a, b), np.eye(n) -> np.identity(n)"""
     import ast
@@ -825,7 +883,7 @@ def _t_accept_lists(srcs):
                         n.body[k:k] = ast.parse("if not isinstance(%s, np.ndarray):\n    %s = np.array(%s)\n" % (a.arg, a.arg, a.arg)).body
 
 
-TREE_TRANSFORMS = {"@coerce_params": _t_coerce_params, "@accept_lists": _t_accept_lists, "@early_exit": _t_early_exit, "@numpy_alias": _t_numpy_alias, "@kwargs_calls": _t_kwargs_calls, "@strip_docs_annotate": _t_strip_docs_annotate, "@logging": _t_logging, "@traced": _t_traced, "@kwonly": _t_kwonly, "@extra_param": _t_extra_param, "@try_reraise": _t_try_reraise, "@np_functions": _t_np_functions, "@small_idioms": _t_small_idioms, "@flip_comparisons": _t_flip_comparisons, "@else_after_exit": _t_else_after_exit, "@comp_to_loop": _t_comp_to_loop, "@logic_spellings": _t_logic_spellings, "@local_aliases": _t_local_aliases, "@method_spellings": _t_method_spellings, "@np_operators": _t_np_operators, "@private_module": _t_private_module, "@swap_branches": _t_swap_branches, "@name_conditions": _t_name_conditions, "@ternary_to_if": _t_ternary_to_if,
+TREE_TRANSFORMS = {"@coerce_params": _t_coerce_params, "@accept_lists": _t_accept_lists, "@early_exit": _t_early_exit, "@numpy_alias": _t_numpy_alias, "@kwargs_calls": _t_kwargs_calls, "@strip_docs_annotate": _t_strip_docs_annotate, "@logging": _t_logging, "@traced": _t_traced, "@kwonly": _t_kwonly, "@extra_param": _t_extra_param, "@try_reraise": _t_try_reraise, "@np_functions": _t_np_functions, "@small_idioms": _t_small_idioms, "@flip_comparisons": _t_flip_comparisons, "@else_after_exit": _t_else_after_exit, "@comp_to_loop": _t_comp_to_loop, "@logic_spellings": _t_logic_spellings, "@local_aliases": _t_local_aliases, "@method_spellings": _t_method_spellings, "@statement_spellings": _t_statement_spellings, "@np_operators": _t_np_operators, "@private_module": _t_private_module, "@swap_branches": _t_swap_branches, "@name_conditions": _t_name_conditions, "@ternary_to_if": _t_ternary_to_if,
                    "@shim": _t_shim}
 
 
